@@ -4,6 +4,7 @@ import (
 	"encoding/hex"
 	"fmt"
 	"strconv"
+	"strings"
 	"testing"
 	"time"
 
@@ -16,7 +17,7 @@ import (
 	"verifharness/ref"
 )
 
-var c10Weights = []weighted{{"deposit", 14}, {"create", 4}, {"send", 1}, {"advance", 1}, {"propose", 1}}
+var c10Weights = []weighted{{"deposit", 14}, {"create", 4}, {"role", 3}, {"send", 1}, {"advance", 1}, {"propose", 1}, {"delete", 1}, {"claim", 1}}
 
 // c10AfterCreate: a newly created bridge starts at sequence 1 with nothing recorded under its id.
 func c10AfterCreate(w *l1World, id uint64) error {
@@ -165,6 +166,14 @@ func TestC10Rapid(t *testing.T) {
 						lateCreated = true
 					}
 					shape += fmt.Sprintf("c%d", st.Bridge)
+				}
+			default:
+				// everything else that touches a bridge (config updates by the role holders, outputs, claims)
+				// must leave its deposit counter alone: c10Queries below compares it with the model
+				if strings.HasPrefix(st.Kind, "role:") && st.Res.OK() {
+					if b, ok := w.bridges[st.Bridge]; ok && b.NextSeq > 1 {
+						c.Class("config-update-after-deposits")
+					}
 				}
 			}
 			if err := c10Queries(w); err != nil {
